@@ -313,7 +313,7 @@ func runC03(c *Ctx) {
 	}
 	d.chain = w.Pick(3, 0, 40)
 	d.checkPending("start")
-	steps := w.Range(6, 50)
+	steps := w.Range(6, c.Deep(50))
 	for i := 0; i < steps; i++ {
 		switch w.Choose(16) {
 		case 0, 1, 2, 3:
